@@ -464,6 +464,11 @@ func (cc *connectStreamingClientConn) Receive(msg any) error {
 	// converting the bytes to a message, an error reading from the network, or
 	// just an EOF. We're going to return it to the user, but we also want to
 	// setResponseError so Send errors out.
+	if errors.Is(err, io.EOF) && !errors.Is(err, errSpecialEnvelope) {
+		// The response body ended without an end-of-stream message, so we can't
+		// know that we've seen the whole response: this isn't a clean EOF.
+		err = errorf(CodeInternal, "protocol error: %w", io.ErrUnexpectedEOF)
+	}
 	cc.duplexCall.SetError(err)
 	return err
 }
